@@ -11,8 +11,12 @@ import re
 
 from . import versions as gv
 
-CATS = ["a", "b", "dev-x"]
-PKGS = ["p", "q", "p-q"]
+# categories / package names include proper-prefix families continued with '-', '+', '.', '_' or a letter: characters
+# that sort on both sides of '/', so comparing "cat/pkg" as one string is not the same as comparing (cat, pkg)
+CATS = ["a", "b", "dev-x", "dev", "a.b", "dev+", "dev_x", "deva", "x11", "x11-libs"]
+PKGS = ["p", "q", "p-q", "p+", "p_x", "pq", "foo", "foo-bar"]
+BOUNDARY_CATS = ["dev", "dev-x", "dev+", "dev.x", "dev_x", "deva", "de", "x11", "x11-libs", "a", "a.b"]
+BOUNDARY_PKGS = ["foo", "foo-bar", "foo+", "foo_x", "fooa", "fo"]
 SLOTS = ["0", "1", "2.1"]
 SUBSLOTS = ["0", "1", "2"]
 REPOS = ["r1", "r2"]
